@@ -103,8 +103,8 @@ def run(ctx):
         recs += gen(ctx, 100, ctx.seed + 1000, big=True)
     else:
         for i in range(5):
-            recs += gen(ctx, 5000, ctx.seed + i)
-            recs += gen(ctx, 600, ctx.seed + 1000 + i, big=True)
+            recs += gen(ctx, 10000, ctx.seed + i)
+            recs += gen(ctx, 1200, ctx.seed + 1000 + i, big=True)
     bad = ctx.validate(TRACE, recs)
     fails = []
     for idx, info in bad:
